@@ -1639,13 +1639,25 @@ impl Vm {
 
     fn reset_stack(&mut self) {
         if let Some(fiber) = self.fiber.as_ref() {
-            let mut borrowed_fiber = fiber.borrow_mut();
-            if borrowed_fiber.stack.len() > 0 {
-                // A closure that outlives the run (one stored in a global) keeps the variables it captured.
-                borrowed_fiber.close_upvalues(0);
+            // A closure that outlives the run (one stored in a global) keeps the variables it captured,
+            // whether they live in the fiber that failed or in one of the fibers waiting for it: none of
+            // them runs again.
+            let mut waiting = {
+                let mut borrowed_fiber = fiber.borrow_mut();
+                if borrowed_fiber.stack.len() > 0 {
+                    borrowed_fiber.close_upvalues(0);
+                }
+                borrowed_fiber.stack.clear();
+                borrowed_fiber.frames.clear();
+                borrowed_fiber.caller
+            };
+            while let Some(caller) = waiting {
+                let mut borrowed_caller = caller.borrow_mut();
+                if borrowed_caller.stack.len() > 0 {
+                    borrowed_caller.close_upvalues(0);
+                }
+                waiting = borrowed_caller.caller;
             }
-            borrowed_fiber.stack.clear();
-            borrowed_fiber.frames.clear();
         }
     }
 
